@@ -26,20 +26,21 @@ const T0 int64 = 1_700_000_000
 
 // Config is the static part of a history.
 type Config struct {
-	Policy     string `json:"policy"`       // none | hard | gradual
-	Cooldown   int64  `json:"cooldown"`     // hard policy: cool-down seconds (>0)
-	FuseWindow int64  `json:"fuse_window"`  // sliding window seconds
-	FuseMinErr int64  `json:"fuse_min_err"` // errors in the window that trip the breaker
-	DownAfter  int    `json:"down_after"`   // down_after_no_alive seconds
-	SBM        int    `json:"sbm"`          // seconds_behind_master limit, 0 = replication not checked
-	HealthSQL  bool   `json:"health_sql"`   // a health statement is configured
-	StartDown  bool   `json:"start_down"`   // the replica starts in state down (not fused)
+	Policy     string `json:"policy"`             // none | hard | gradual
+	Cooldown   int64  `json:"cooldown"`           // hard policy: cool-down seconds (>0)
+	FuseWindow int64  `json:"fuse_window"`        // sliding window seconds
+	FuseMinErr int64  `json:"fuse_min_err"`       // errors in the window that trip the breaker
+	DownAfter  int    `json:"down_after"`         // down_after_no_alive seconds
+	SBM        int    `json:"sbm"`                // seconds_behind_master limit, 0 = replication not checked
+	HealthSQL  bool   `json:"health_sql"`         // a health statement is configured
+	StartDown  bool   `json:"start_down"`         // the replica starts in state down (not fused)
+	Replicas   int    `json:"replicas,omitempty"` // replicas in the group (Slice.Slave), 0 = 1; their strategies come from one DBInfo.InitFuseRecoveryPolicy call
 }
 
 // Probe scripts the health probe of one round.
 type Probe struct {
-	GetCheck string `json:"getcheck,omitempty"` // "" ok | "err"
-	Health   string `json:"health,omitempty"`   // "" ok | soft | soft1ok | shutdown | ts_missing | ts_discarded | timeout   (only with Config.HealthSQL)
+	GetCheck string `json:"getcheck,omitempty"`  // "" ok | "err"
+	Health   string `json:"health,omitempty"`    // "" ok | soft | soft1ok | shutdown | ts_missing | ts_discarded | timeout   (only with Config.HealthSQL)
 	PingFail int    `json:"ping_fail,omitempty"` // 0 never, 1-4 fails at that repeat only, 5 always
 	SelFail  int    `json:"sel_fail,omitempty"`  // same for "select 1"
 }
@@ -54,9 +55,10 @@ type Repl struct {
 
 // Op is one step of a history.
 type Op struct {
-	K  string `json:"k"`            // adv | fuse | round
-	Dt int64  `json:"dt,omitempty"` // seconds the clock advances before the op (before every repeat for rounds)
-	N  int    `json:"n,omitempty"`  // repeats (fuse: TryFuse calls at the same instant; round: identical rounds); 0 = 1
+	K    string `json:"k"`              // adv | fuse | round
+	Node int    `json:"node,omitempty"` // fuse, round: replica index (taken modulo Config.Replicas)
+	Dt   int64  `json:"dt,omitempty"`   // seconds the clock advances before the op (before every repeat for rounds)
+	N    int    `json:"n,omitempty"`    // repeats (fuse: TryFuse calls at the same instant; round: identical rounds); 0 = 1
 	// fuse
 	Err string `json:"err,omitempty"` // conn | sql | generic | nil
 	Via string `json:"via,omitempty"` // "" TryFuse | getconn (a failing ConnPool.Get under GetSlaveConn)
@@ -70,6 +72,7 @@ type Op struct {
 // Step is the judged outcome of one TryFuse call or one TryRecover round.
 type Step struct {
 	Op        int    // index into the ops
+	Node      int    // replica the step acted on
 	Rep       int    // repeat number within the op
 	T         int64  // fake time, seconds since T0
 	Kind      string // fuse | round
@@ -104,24 +107,25 @@ func (s Step) String() string {
 	} else if !s.AllowDown {
 		allowed = "up"
 	}
-	return fmt.Sprintf("op %d rep %d t=+%ds %s [%s]: %s -> %s, reference allows %s (%s; probe_pass=%v master=%s repl=%s fused_down=%v)",
-		s.Op, s.Rep, s.T, s.Kind, s.Cat, st(s.Before), st(s.After), allowed, s.Why, s.ProbePass, s.Master, s.Repl, s.FusedDown)
+	return fmt.Sprintf("op %d replica %d rep %d t=+%ds %s [%s]: %s -> %s, reference allows %s (%s; probe_pass=%v master=%s repl=%s fused_down=%v)",
+		s.Op, s.Node, s.Rep, s.T, s.Kind, s.Cat, st(s.Before), st(s.After), allowed, s.Why, s.ProbePass, s.Master, s.Repl, s.FusedDown)
 }
 
 // Episode is one breaker episode under the gradual policy: from the fuse that
 // took the replica down to the round that marked it up again.
 type Episode struct {
-	FuseT      int64 // time of the fuse
-	Gap        int64 // seconds since the previous recovery (-1: none before)
-	SinceStart int64 // seconds since the strategy was created
-	R          int   // length of the final uninterrupted run of full-pass rounds, the last of which marked the replica up
-	MaxPrior   int   // longest earlier run of full-pass rounds that did not suffice
-	Interrupted bool // a failed probe occurred during the episode
-	Tainted    bool  // neutral rounds (master down, replication unhealthy) occurred: runs not comparable
-	Recovered  bool
-	PrevFuse   bool // the previous recovery ended a (recovered, untainted) fuse episode and nothing else marked the node up in between
-	PrevR      int
-	EndStep    int
+	Node        int   // replica
+	FuseT       int64 // time of the fuse
+	Gap         int64 // seconds since the previous recovery (-1: none before)
+	SinceStart  int64 // seconds since the strategy was created
+	R           int   // length of the final uninterrupted run of full-pass rounds, the last of which marked the replica up
+	MaxPrior    int   // longest earlier run of full-pass rounds that did not suffice
+	Interrupted bool  // a failed probe occurred during the episode
+	Tainted     bool  // neutral rounds (master down, replication unhealthy) occurred: runs not comparable
+	Recovered   bool
+	PrevFuse    bool // the previous recovery ended a (recovered, untainted) fuse episode and nothing else marked the node up in between
+	PrevR       int
+	EndStep     int
 }
 
 // Issue is a violation of an episode-level invariant of the gradual policy.
@@ -196,10 +200,12 @@ type env struct {
 	cfg   Config
 	now   int64
 	slice *backend.Slice
-	node  *backend.NodeInfo
-	by    *backend.NodeInfo
+	nodes []*backend.NodeInfo // replicas of the group under test (Slice.Slave)
+	pools []*fakepool.Pool
+	by    *backend.NodeInfo // bystander in another group (Slice.StatisticSlave)
 	mnode *backend.NodeInfo
-	pool  *fakepool.Pool
+
+	getTarget *fakepool.Pool // the pool whose Get fails with getErr
 
 	cur                     *Op
 	healthN, pingN, selectN int
@@ -237,79 +243,91 @@ func newEnv(cfg Config) (*env, error) {
 	e := &env{cfg: cfg, now: T0}
 	backend.VerifSetClock(func() time.Time { return time.Unix(e.now, 0) })
 	clock := func() int64 { return e.now }
-	e.pool = fakepool.New("10.1.0.2:3306", &fakepool.Options{Clock: clock})
-	e.pool.SetLastCheckedAt(T0)
 	mp := fakepool.New("10.1.0.1:3306", &fakepool.Options{Clock: clock})
 	mp.SetLastCheckedAt(T0)
 	bp := fakepool.New("10.1.0.3:3306", &fakepool.Options{Clock: clock})
 	bp.SetLastCheckedAt(T0)
 
-	e.pool.OnGetCheck = func(p *fakepool.Pool, n int) error {
-		if e.cur != nil && e.cur.Probe.GetCheck != "" {
-			return errors.New("get check conn: timeout")
-		}
-		return nil
+	nrep := cfg.Replicas
+	if nrep <= 0 {
+		nrep = 1
 	}
-	e.pool.OnPing = func(c *fakepool.Conn) error {
-		k := e.pingN
-		e.pingN++
-		if e.cur != nil && failsAt(e.cur.Probe.PingFail, k) {
-			return errors.New("ping: i/o timeout")
-		}
-		return nil
-	}
-	e.pool.OnExec = func(c *fakepool.Conn, sql string) (*mysql.Result, error) {
-		if e.cur == nil {
-			return &mysql.Result{}, nil
-		}
-		switch sql {
-		case "show slave status;":
-			switch e.cur.Repl.Kind {
-			case "noprivilege":
-				return nil, mysql.NewError(mysql.ErrSpecificAccessDenied, "Access denied; you need (at least one of) the SUPER, REPLICATION CLIENT privilege(s) for this operation")
-			case "error":
-				return nil, errors.New("read: connection reset by peer")
-			}
-			return slaveStatusResult(e.cur.Repl), nil
-		case "select 1":
-			k := e.selectN
-			e.selectN++
-			if failsAt(e.cur.Probe.SelFail, k) {
-				return nil, errors.New("select 1: i/o timeout")
-			}
-			return &mysql.Result{}, nil
-		case HealthSQL:
-			k := e.healthN
-			e.healthN++
-			switch e.cur.Probe.Health {
-			case "":
-				return &mysql.Result{}, nil
-			case "soft":
-				return nil, mysql.NewError(mysql.ErrNoSuchTable, "Table 'health.t' doesn't exist")
-			case "soft1ok":
-				if k == 0 {
-					return nil, mysql.NewError(mysql.ErrNoSuchTable, "Table 'health.t' doesn't exist")
-				}
-				return &mysql.Result{}, nil
-			case "shutdown":
-				return nil, mysql.NewError(mysql.ErrServerShutdown, "Server shutdown in progress")
-			case "ts_missing":
-				return nil, mysql.NewError(mysql.ErrTablespaceMissing, "Tablespace is missing for table health.t")
-			case "ts_discarded":
-				return nil, mysql.NewError(mysql.ErrTablespaceDiscarded, "Tablespace has been discarded for table 't'")
-			case "timeout":
-				return nil, backend.ErrExecuteTimeout
-			}
-		}
-		return &mysql.Result{}, nil
-	}
-	e.pool.OnGet = func(p *fakepool.Pool, n int) error { return e.getErr }
-
 	st := backend.StatusUp
 	if cfg.StartDown {
 		st = backend.StatusDown
 	}
-	e.node = &backend.NodeInfo{Address: e.pool.Addr(), Weight: 1, ConnPool: e.pool, Status: st}
+	for i := 0; i < nrep; i++ {
+		p := fakepool.New(fmt.Sprintf("10.1.1.%d:3306", i+1), &fakepool.Options{Clock: clock})
+		p.SetLastCheckedAt(T0)
+		p.OnGetCheck = func(_ *fakepool.Pool, n int) error {
+			if e.cur != nil && e.cur.Probe.GetCheck != "" {
+				return errors.New("get check conn: timeout")
+			}
+			return nil
+		}
+		p.OnPing = func(c *fakepool.Conn) error {
+			k := e.pingN
+			e.pingN++
+			if e.cur != nil && failsAt(e.cur.Probe.PingFail, k) {
+				return errors.New("ping: i/o timeout")
+			}
+			return nil
+		}
+		p.OnExec = func(c *fakepool.Conn, sql string) (*mysql.Result, error) {
+			if e.cur == nil {
+				return &mysql.Result{}, nil
+			}
+			switch sql {
+			case "show slave status;":
+				switch e.cur.Repl.Kind {
+				case "noprivilege":
+					return nil, mysql.NewError(mysql.ErrSpecificAccessDenied, "Access denied; you need (at least one of) the SUPER, REPLICATION CLIENT privilege(s) for this operation")
+				case "error":
+					return nil, errors.New("read: connection reset by peer")
+				}
+				return slaveStatusResult(e.cur.Repl), nil
+			case "select 1":
+				k := e.selectN
+				e.selectN++
+				if failsAt(e.cur.Probe.SelFail, k) {
+					return nil, errors.New("select 1: i/o timeout")
+				}
+				return &mysql.Result{}, nil
+			case HealthSQL:
+				k := e.healthN
+				e.healthN++
+				switch e.cur.Probe.Health {
+				case "":
+					return &mysql.Result{}, nil
+				case "soft":
+					return nil, mysql.NewError(mysql.ErrNoSuchTable, "Table 'health.t' doesn't exist")
+				case "soft1ok":
+					if k == 0 {
+						return nil, mysql.NewError(mysql.ErrNoSuchTable, "Table 'health.t' doesn't exist")
+					}
+					return &mysql.Result{}, nil
+				case "shutdown":
+					return nil, mysql.NewError(mysql.ErrServerShutdown, "Server shutdown in progress")
+				case "ts_missing":
+					return nil, mysql.NewError(mysql.ErrTablespaceMissing, "Tablespace is missing for table health.t")
+				case "ts_discarded":
+					return nil, mysql.NewError(mysql.ErrTablespaceDiscarded, "Tablespace has been discarded for table 't'")
+				case "timeout":
+					return nil, backend.ErrExecuteTimeout
+				}
+			}
+			return &mysql.Result{}, nil
+		}
+		p.OnGet = func(q *fakepool.Pool, n int) error {
+			if q == e.getTarget {
+				return e.getErr
+			}
+			return nil
+		}
+
+		e.pools = append(e.pools, p)
+		e.nodes = append(e.nodes, &backend.NodeInfo{Address: p.Addr(), Weight: 1, ConnPool: p, Status: st})
+	}
 	e.mnode = fakepool.Node(mp, 1)
 	e.by = fakepool.Node(bp, 1)
 	s := &backend.Slice{Namespace: "healthfix"}
@@ -318,7 +336,7 @@ func newEnv(cfg Config) (*env, error) {
 		s.HealthCheckSql = HealthSQL
 	}
 	s.Master = &backend.DBInfo{Nodes: []*backend.NodeInfo{e.mnode}}
-	s.Slave = &backend.DBInfo{Nodes: []*backend.NodeInfo{e.node}}
+	s.Slave = &backend.DBInfo{Nodes: e.nodes}
 	s.StatisticSlave = &backend.DBInfo{Nodes: []*backend.NodeInfo{e.by}}
 	if err := s.Slave.InitBalancers(""); err != nil {
 		return nil, err
@@ -376,29 +394,48 @@ func Run(cfg Config, ops []Op) (tr Trace) {
 		tr.Panic = "setup: " + err.Error()
 		return
 	}
-	// reference state
-	tOK := T0
-	tFuse := neverSet
-	fusedDown := false
-	var events []int64        // times of recorded connection errors
-	// gradual bookkeeping
-	var ep *Episode
-	curRun := 0
-	downRun := 0 // consecutive full-pass rounds while down (any reason), for the liveness bound
-	lastRecovery := neverSet
-	lastRecoveryFuse := false
-	lastRecoveryR := 0
-
-	up := func() bool { return e.node.IsStatusUp() }
-	others := func(where string) {
+	// reference state, independent per replica
+	type refState struct {
+		tOK       int64
+		tFuse     int64
+		fusedDown bool
+		events    []int64 // times of recorded connection errors
+		// gradual bookkeeping
+		ep               *Episode
+		curRun           int
+		downRun          int // consecutive full-pass rounds while down (any reason), for the liveness bound
+		lastRecovery     int64
+		lastRecoveryFuse bool
+		lastRecoveryR    int
+	}
+	refs := make([]*refState, len(e.nodes))
+	for i := range refs {
+		refs[i] = &refState{tOK: T0, tFuse: neverSet, lastRecovery: neverSet}
+	}
+	others := func(ni int, before []bool, where string) {
 		if !e.by.IsStatusUp() {
-			tr.Other = append(tr.Other, where+": the bystander replica (never probed, never fused) changed to down")
+			tr.Other = append(tr.Other, where+": the bystander replica of another group (never probed, never fused) changed to down")
 			e.by.SetStatusUp()
 		}
+		for j, nd := range e.nodes {
+			if j != ni && nd.IsStatusUp() != before[j] {
+				tr.Other = append(tr.Other, fmt.Sprintf("%s: replica %d of the same group changed its status although the step acted on replica %d", where, j, ni))
+			}
+		}
+	}
+	snapshot := func() []bool {
+		b := make([]bool, len(e.nodes))
+		for j, nd := range e.nodes {
+			b[j] = nd.IsStatusUp()
+		}
+		return b
 	}
 
 	for oi := range ops {
 		op := ops[oi]
+		ni := ((op.Node % len(e.nodes)) + len(e.nodes)) % len(e.nodes)
+		node, pool, r := e.nodes[ni], e.pools[ni], refs[ni]
+		up := func() bool { return node.IsStatusUp() }
 		n := op.N
 		if n <= 0 {
 			n = 1
@@ -413,27 +450,34 @@ func Run(cfg Config, ops []Op) (tr Trace) {
 				e.now += op.Dt
 			}
 			for rep := 0; rep < n; rep++ {
-				st := Step{Op: oi, Rep: rep, T: e.now - T0, Kind: "fuse", Before: up(), FusedDown: fusedDown, Master: "n/a", Repl: "n/a"}
-				ferr := fuseErr(op.Err, e.pool.Addr())
+				before := snapshot()
+				st := Step{Op: oi, Node: ni, Rep: rep, T: e.now - T0, Kind: "fuse", Before: up(), FusedDown: r.fusedDown, Master: "n/a", Repl: "n/a"}
+				ferr := fuseErr(op.Err, pool.Addr())
 				delivered := true
 				if op.Via == "getconn" {
 					// the error reaches TryFuse only if the balancer hands out this replica
 					delivered = st.Before
-					e.getErr = ferr
-					pc, _ := e.slice.GetSlaveConn(e.slice.Slave, backend.LocalSlaveReadClosed)
-					e.getErr = nil
-					if pc != nil {
-						pc.Recycle()
+					e.getErr, e.getTarget = ferr, pool
+					g0 := pool.Count("get") + pool.Count("get_err")
+					for try := 0; try < 2*len(e.nodes)+2; try++ {
+						pc, _ := e.slice.GetSlaveConn(e.slice.Slave, backend.LocalSlaveReadClosed)
+						if pc != nil {
+							pc.Recycle()
+						}
+						if !delivered || pool.Count("get")+pool.Count("get_err") > g0 {
+							break
+						}
 					}
+					e.getErr, e.getTarget = nil, nil
 				} else {
-					e.slice.TryFuse(e.node, ferr)
+					e.slice.TryFuse(node, ferr)
 				}
 				st.After = up()
 				trigger := false
 				if delivered && cfg.Policy != "none" && isConnErr(op.Err) {
-					events = append(events, e.now)
+					r.events = append(r.events, e.now)
 					cnt := int64(0)
-					for _, t := range events {
+					for _, t := range r.events {
 						if t > e.now-cfg.FuseWindow && t <= e.now {
 							cnt++
 						}
@@ -452,25 +496,25 @@ func Run(cfg Config, ops []Op) (tr Trace) {
 					st.AllowUp, st.AllowDown = st.Before, !st.Before
 				}
 				if trigger {
-					tFuse = e.now
+					r.tFuse = e.now
 					if st.Before {
-						fusedDown = true
+						r.fusedDown = true
 					}
 				}
 				if st.Before && !st.After && trigger && cfg.Policy == "gradual" {
-					ne := Episode{FuseT: e.now, Gap: -1, SinceStart: e.now - T0}
-					if lastRecovery != neverSet {
-						ne.Gap = e.now - lastRecovery
-						ne.PrevFuse, ne.PrevR = lastRecoveryFuse, lastRecoveryR
+					ne := Episode{Node: ni, FuseT: e.now, Gap: -1, SinceStart: e.now - T0}
+					if r.lastRecovery != neverSet {
+						ne.Gap = e.now - r.lastRecovery
+						ne.PrevFuse, ne.PrevR = r.lastRecoveryFuse, r.lastRecoveryR
 					}
-					ep = &ne
-					curRun = 0
+					r.ep = &ne
+					r.curRun = 0
 				}
 				if st.After {
-					fusedDown = false
+					r.fusedDown = false
 				}
 				tr.Steps = append(tr.Steps, st)
-				others(st.String())
+				others(ni, before, st.String())
 			}
 		case "round":
 			switch op.Master {
@@ -494,9 +538,10 @@ func Run(cfg Config, ops []Op) (tr Trace) {
 				if op.Dt > 0 {
 					e.now += op.Dt
 				}
-				st := Step{Op: oi, Rep: rep, T: e.now - T0, Kind: "round", Before: up(), FusedDown: fusedDown, Master: mst}
+				before := snapshot()
+				st := Step{Op: oi, Node: ni, Rep: rep, T: e.now - T0, Kind: "round", Before: up(), FusedDown: r.fusedDown, Master: mst}
 				e.cur, e.healthN, e.pingN, e.selectN = &ops[oi], 0, 0, 0
-				rerr := e.slice.TryRecover(e.node, cfg.DownAfter, cfg.SBM)
+				rerr := e.slice.TryRecover(node, cfg.DownAfter, cfg.SBM)
 				e.cur = nil
 				st.After = up()
 				if rerr != nil {
@@ -510,13 +555,13 @@ func Run(cfg Config, ops []Op) (tr Trace) {
 				p := ProbePasses(cfg, op.Probe)
 				st.ProbePass = p
 				if p {
-					tOK = e.now
+					r.tOK = e.now
 				}
-				st.GateHolds = tFuse == neverSet || e.now >= tFuse+cfg.Cooldown
+				st.GateHolds = r.tFuse == neverSet || e.now >= r.tFuse+cfg.Cooldown
 				st.Repl = "notrun"
 				switch {
-				case e.now-tOK >= int64(cfg.DownAfter):
-					st.Cat, st.Why = "noalive", fmt.Sprintf("no probe passed for %ds >= down_after %ds", e.now-tOK, cfg.DownAfter)
+				case e.now-r.tOK >= int64(cfg.DownAfter):
+					st.Cat, st.Why = "noalive", fmt.Sprintf("no probe passed for %ds >= down_after %ds", e.now-r.tOK, cfg.DownAfter)
 					st.AllowDown = true
 				case mst != "up":
 					switch {
@@ -526,8 +571,8 @@ func Run(cfg Config, ops []Op) (tr Trace) {
 					case st.Before:
 						st.Cat, st.Why = "masterdown_stay_up", "probe passed, replication cannot be judged: stays up"
 						st.AllowUp = true
-					case cfg.Policy == "hard" && fusedDown && !st.GateHolds:
-						st.Cat, st.Why = "masterdown_gate", fmt.Sprintf("fused %ds ago, cool-down %ds not over", e.now-tFuse, cfg.Cooldown)
+					case cfg.Policy == "hard" && r.fusedDown && !st.GateHolds:
+						st.Cat, st.Why = "masterdown_gate", fmt.Sprintf("fused %ds ago, cool-down %ds not over", e.now-r.tFuse, cfg.Cooldown)
 						st.AllowDown = true
 					default:
 						st.Cat, st.Why = "masterdown_probeok", "probe passed while the master is not up: statement silent, either accepted"
@@ -562,8 +607,8 @@ func Run(cfg Config, ops []Op) (tr Trace) {
 							case st.GateHolds:
 								st.Cat, st.Why = "hard_recover", "cool-down since the latest fuse is over and the probe passed: marked up"
 								st.AllowUp = true
-							case fusedDown:
-								st.Cat, st.Why = "hard_gate", fmt.Sprintf("fused %ds ago, cool-down %ds not over", e.now-tFuse, cfg.Cooldown)
+							case r.fusedDown:
+								st.Cat, st.Why = "hard_gate", fmt.Sprintf("fused %ds ago, cool-down %ds not over", e.now-r.tFuse, cfg.Cooldown)
 								st.AllowDown = true
 							default:
 								st.Cat, st.Why = "hard_gate_ambiguous", "down for another reason, breaker tripped while down: either accepted"
@@ -579,60 +624,62 @@ func Run(cfg Config, ops []Op) (tr Trace) {
 				if cfg.Policy == "gradual" && !st.Before {
 					switch {
 					case st.FullPass:
-						downRun++
-						if downRun >= maxRuns && !st.After {
+						r.downRun++
+						if r.downRun >= maxRuns && !st.After {
 							tr.Issues = append(tr.Issues, Issue{Cat: "gradual_never_recovers", Step: len(tr.Steps),
-								Detail: fmt.Sprintf("%d consecutive rounds with passing probe, master up and healthy replication and the replica is still down", downRun)})
-							downRun = 0
+								Detail: fmt.Sprintf("%d consecutive rounds with passing probe, master up and healthy replication and the replica is still down", r.downRun)})
+							r.downRun = 0
 						}
 					default:
-						downRun = 0
+						r.downRun = 0
 					}
-					if ep != nil {
+					if r.ep != nil {
 						switch {
 						case st.FullPass:
-							curRun++
+							r.curRun++
 						case !p:
-							if curRun > ep.MaxPrior {
-								ep.MaxPrior = curRun
+							if r.curRun > r.ep.MaxPrior {
+								r.ep.MaxPrior = r.curRun
 							}
-							curRun = 0
-							ep.Interrupted = true
+							r.curRun = 0
+							r.ep.Interrupted = true
 						default:
-							ep.Tainted = true
-							curRun = 0
+							r.ep.Tainted = true
+							r.curRun = 0
 						}
 					}
 				}
 				if cfg.Policy == "gradual" && !st.Before && st.After {
 					// marked up in this round
 					wasFuse := false
-					r := 0
-					if ep != nil {
-						ep.Recovered, ep.R, ep.EndStep = true, curRun, len(tr.Steps)
+					epR := 0
+					if r.ep != nil {
+						r.ep.Recovered, r.ep.R, r.ep.EndStep = true, r.curRun, len(tr.Steps)
 						if !st.FullPass {
-							ep.Tainted = true
+							r.ep.Tainted = true
 						}
-						wasFuse = !ep.Tainted
-						r = ep.R
-						tr.Episodes = append(tr.Episodes, *ep)
-						judgeEpisode(&tr, *ep)
-						ep = nil
+						wasFuse = !r.ep.Tainted
+						epR = r.ep.R
+						tr.Episodes = append(tr.Episodes, *r.ep)
+						judgeEpisode(&tr, *r.ep)
+						r.ep = nil
 					}
-					lastRecovery, lastRecoveryFuse, lastRecoveryR = e.now, wasFuse, r
-					downRun = 0
+					r.lastRecovery, r.lastRecoveryFuse, r.lastRecoveryR = e.now, wasFuse, epR
+					r.downRun = 0
 				}
 				if st.After {
-					fusedDown = false
-					downRun = 0
+					r.fusedDown = false
+					r.downRun = 0
 				}
 				tr.Steps = append(tr.Steps, st)
-				others(st.String())
+				others(ni, before, st.String())
 			}
 		}
 	}
-	if ep != nil {
-		tr.Episodes = append(tr.Episodes, *ep)
+	for _, r := range refs {
+		if r.ep != nil {
+			tr.Episodes = append(tr.Episodes, *r.ep)
+		}
 	}
 	return
 }
@@ -648,7 +695,7 @@ func judgeEpisode(tr *Trace, ep Episode) {
 	}
 	// (c) consecutive: a run of successful rounds that did not suffice is shorter than the run that finally did
 	if ep.R < ep.MaxPrior+1 {
-		add("gradual_count_not_restarted", "episode fused at +%ds: recovered after a run of %d successful rounds although an earlier uninterrupted run of %d rounds had not sufficed (a failed probe must restart the count)", ep.FuseT-T0, ep.R, ep.MaxPrior)
+		add("gradual_count_not_restarted", "replica "+fmt.Sprint(ep.Node)+": episode fused at +%ds: recovered after a run of %d successful rounds although an earlier uninterrupted run of %d rounds had not sufficed (a failed probe must restart the count)", ep.FuseT-T0, ep.R, ep.MaxPrior)
 	}
 	short := ep.Gap >= 0 && ep.Gap < soonSec
 	long := ep.Gap > soonSec
@@ -670,13 +717,13 @@ func judgeEpisode(tr *Trace, ep Episode) {
 	// (d) a fuse long after the previous recovery: back at the base requirement
 	if long && !ep.Interrupted {
 		for _, o := range tr.Episodes[:len(tr.Episodes)-1] {
-			if o.Recovered && !o.Tainted && !o.Interrupted && o.Gap > soonSec && o.R != ep.R {
+			if o.Node == ep.Node && o.Recovered && !o.Tainted && !o.Interrupted && o.Gap > soonSec && o.R != ep.R {
 				add("gradual_base_not_restored", "episode fused at +%ds long (%ds) after the previous recovery needed %d successful rounds, an earlier such episode needed %d", ep.FuseT-T0, ep.Gap, ep.R, o.R)
 				break
 			}
 		}
 		for _, o := range tr.Episodes[:len(tr.Episodes)-1] {
-			if o.Recovered && !o.Tainted && o.Gap >= 0 && o.Gap < soonSec && o.R <= ep.R {
+			if o.Node == ep.Node && o.Recovered && !o.Tainted && o.Gap >= 0 && o.Gap < soonSec && o.R <= ep.R {
 				add("gradual_base_not_restored", "episode fused at +%ds long (%ds) after the previous recovery needed %d successful rounds, not fewer than an earlier penalised episode (%d)", ep.FuseT-T0, ep.Gap, ep.R, o.R)
 				break
 			}
